@@ -32,3 +32,29 @@ Proof.
   rewrite <- (eval_peel_top ma), <- (eval_peel_top mb). now rewrite Pe.
 Qed.
 Print Assumptions equal_requirements_markers_alike.
+
+(* non-vacuity: two equal requirements that both carry a marker, spelled differently (variable alias, parentheses, quotes, the
+   spelling of the extra name):   a; os.name=='x' and extra=='A_b'   and   A ;(os_name == <dq>x<dq>)and( extra == 'a-B') *)
+Definition meq_a : list N := [97;59;32;111;115;46;110;97;109;101;61;61;39;120;39;32;97;110;100;32;101;120;116;114;97;61;61;39;65;95;98;39].
+Definition meq_b : list N := [65;32;59;40;111;115;95;110;97;109;101;32;61;61;32;34;120;34;41;97;110;100;40;32;101;120;116;114;97;32;61;61;32;39;97;45;66;39;41].
+Definition meq_check : bool :=
+  match Requirement meq_a, Requirement meq_b with
+  | RqOk x, RqOk y => req_eq x y && match q_marker x, q_marker y with Some _, Some _ => true | _, _ => false end
+                      && negb (rq_str_eqb meq_a meq_b)
+  | _, _ => false
+  end.
+Example meq_check_ok : meq_check = true.
+Proof. vm_compute. reflexivity. Qed.
+(* the hypotheses of equal_requirements_markers_alike are instantiated by them *)
+Example meq_hyps : exists x y ma mb, Requirement meq_a = RqOk x /\ Requirement meq_b = RqOk y /\ req_eq x y = true /\
+  q_marker x = Some ma /\ q_marker y = Some mb /\ forall defaults ov, evaluate ma defaults ov = evaluate mb defaults ov.
+Proof.
+  destruct (Requirement meq_a) as [x| |] eqn:Ea; try (exfalso; vm_compute in Ea; discriminate).
+  destruct (Requirement meq_b) as [y| |] eqn:Eb; try (exfalso; vm_compute in Eb; discriminate).
+  assert (E : req_eq x y = true).
+  { vm_compute in Ea, Eb. injection Ea as <-. injection Eb as <-. vm_compute. reflexivity. }
+  pose proof (equal_requirements_markers_alike meq_a meq_b x y Ea Eb E) as H.
+  destruct (q_marker x) as [ma|] eqn:Ma; [|exfalso; vm_compute in Ea; injection Ea as <-; discriminate Ma].
+  destruct (q_marker y) as [mb|] eqn:Mb; [|contradiction].
+  exists x, y, ma, mb. repeat split; auto.
+Qed.
